@@ -3,6 +3,7 @@ import ast
 import inspect
 import io
 import keyword
+import linecache
 import os
 import re
 import sys
@@ -17,7 +18,6 @@ from clikit.formatter.plain_formatter import PlainFormatter
 from clikit.utils._compat import PY2
 from clikit.utils._compat import PY36
 from clikit.utils._compat import decode
-from clikit.utils._compat import encode
 
 
 class Highlighter(object):
@@ -84,9 +84,10 @@ class Highlighter(object):
         current_col = 0
         buffer = ""
         current_type = None
-        source_io = io.BytesIO(encode(source))
+        # The text is already decoded: a coding cookie in it must not be applied again
+        source_io = io.StringIO(decode(source))
 
-        tokens = tokenize.tokenize(source_io.readline)
+        tokens = tokenize.generate_tokens(source_io.readline)
         line = ""
         for token_info in tokens:
             token_type, token_string, start, end, _ = token_info
@@ -321,12 +322,19 @@ class ExceptionTrace(object):
         )
 
         code_lines = Highlighter(supports_utf8=io.supports_utf8()).code_snippet(
-            frame.file_content, frame.lineno, 4, 4
+            self._get_file_content(frame), frame.lineno, 4, 4
         )
 
         with io.increment_indent(2):
             for code_line in code_lines:
                 self._render_line(io, code_line)
+
+    def _get_file_content(self, frame):  # type: (...) -> str
+        try:
+            return frame.file_content
+        except UnicodeDecodeError:
+            # Not UTF-8: the interpreter's own reader honours the coding cookie
+            return "".join(linecache.getlines(frame.filename))
 
     def _render_solution(self, io, inspector):
         if self._solution_provider_repository is None:
@@ -421,7 +429,7 @@ class ExceptionTrace(object):
                         if cache_key not in self._FRAME_SNIPPET_CACHE:
                             code_lines = Highlighter(
                                 supports_utf8=io.supports_utf8()
-                            ).code_snippet(frame.file_content, frame.lineno,)
+                            ).code_snippet(self._get_file_content(frame), frame.lineno,)
 
                             self._FRAME_SNIPPET_CACHE[cache_key] = code_lines
 
